@@ -85,6 +85,7 @@ def gen_cases(ctx):
     for c, _ in uni["lower_map"] + uni["upper_map"]:
         pts.add(c)
     pts = {c for c in pts if 0 <= c < 0x110000}
+    boundary = set(pts)
     if ctx.thorough:
         pts = set(range(0x110000))
     else:
@@ -96,7 +97,12 @@ def gen_cases(ctx):
     ctx.extra["single_code_points"] = len(pts)
     for c in pts:
         ch = chr(c)
-        for kind, o in (optsets if (ctx.thorough or c < 0x3000 or c % 7 == 0) else optsets[:2]):
+        # thorough: every code point under one option set (rotating), the table boundaries and everything below 0x3000 under all four
+        if ctx.thorough:
+            chosen = optsets if (c in boundary or c < 0x3000) else [optsets[c % 4]]
+        else:
+            chosen = optsets if (c < 0x3000 or c % 7 == 0) else optsets[:2]
+        for kind, o in chosen:
             cases.append((kind, o, ch, None, False))
             cases.append((kind, o, "a" + ch, None, False))
     # 2. short strings over the class alphabet x random option vectors
